@@ -161,6 +161,21 @@ def scenario(name):
             w.reopen()
             err = w.undo([t1])
             return err, w.state(), {'c': 0, 'p': 0, 'q': 0}
+        if name == 'stale-id-of-a-packed-transaction':
+            import time
+            r['n'] = Plain(5)
+            w.commit()
+            r['p'].v = 1
+            w.commit()
+            r['p'].v = 2
+            r['n'].v = 6
+            t3 = w.commit()
+            time.sleep(0.01)
+            w.db.pack(time.time())
+            before = w.state()
+            err = w.undo([t3])
+            w.conn.cacheMinimize()
+            return ('refused' if err else 'accepted'), w.state(), before
         if name == 'other-connection':
             r['p'].v = 1
             t1 = w.commit()
@@ -179,7 +194,7 @@ def scenario(name):
 SCENARIOS = ['last-change', 'creation', 'equal-later-change', 'mergeable-later-change',
              'two-mergeable-in-one-undo-a', 'two-mergeable-in-one-undo-b',
              'conflicting-later-change', 'two-in-one-undo-a', 'two-in-one-undo-b', 'two-objects-in-one-undo',
-             'undo-of-undo', 'after-reopen', 'other-connection']
+             'undo-of-undo', 'after-reopen', 'other-connection', 'stale-id-of-a-packed-transaction']
 
 
 def random_history(rnd):
@@ -235,7 +250,7 @@ def search(func, candidate, seed, tier, obligation=''):
             err, got, exp = scenario(name)
         except Exception as e:  # noqa
             return fail({'scenario': name}, 'scenario runs', '%s: %s' % (type(e).__name__, str(e)[:200]), cases)
-        if name in ('conflicting-later-change',):
+        if name in ('conflicting-later-change', 'stale-id-of-a-packed-transaction'):
             if err != 'refused' or got != exp:
                 return fail({'scenario': name}, 'UndoError and nothing changed (%r)' % (exp,),
                             '%s; state %r' % (err, got), cases)
